@@ -257,8 +257,8 @@ Proof.
   assert (A2 : forall g : rinfo -> nat, (forall r, g (new_rinfo r) = 0%nat) -> (forall f ri, g (ri_with_kind f ri) = g ri) -> (forall r ri, g (ri_with_res r ri) = g ri) ->
                asum g (is_rules s2) = asum g (is_rules s)).
   { intros g Hz Hg1 Hg2. unfold s2, set_complete.
-    rewrite asum_rules_mod_ri_same; auto. rewrite asum_rules_mod_ri_same; auto.
-    unfold ri_complete. now rewrite Hg1, Hg2. }
+    rewrite asum_rules_mod_ri_same; auto; [|unfold ri_append_deps; now rewrite Hg2].
+    rewrite asum_rules_mod_ri_same; auto. unfold ri_complete. now rewrite Hg1, Hg2. }
   constructor.
   - change (is_rules (retire_task (wake_task_waiters s4 ti) t)) with (is_rules s4). rewrite D1. apply P3.
     unfold s2, set_complete. apply nodup_rules_set_ri, nodup_rules_set_ri. exact Hnd.
